@@ -373,8 +373,11 @@ int main(int argc, char **argv)
 	int i, n;
 	unsigned d;
 	sercomm_init();
-	for (i = 0; i < _SC_DLCI_MAX; i++)
-		if (i != SC_DLCI_ECHO) sercomm_register_rx_cb(i, handler);
+	for (i = 0; i < _SC_DLCI_MAX; i++) {
+		int skip = 0, a;
+		for (a = 1; a < argc; a++) if (atoi(argv[a]) == i) skip = 1;	/* DLCIs named on the command line stay without a handler */
+		if (i != SC_DLCI_ECHO && !skip) sercomm_register_rx_cb(i, handler);
+	}
 	printf("rx_size %%d\n", SERCOMM_RX_MSG_SIZE);
 	while (fgets(line, sizeof(line), stdin)) {
 		a2[0] = 0;
@@ -428,9 +431,9 @@ def hexs(bs):
     return "".join("%02x" % (b & 255) for b in bs) or "-"
 
 
-def run_script(h, script):
-    """-> dict(deliveries [(dlci, payload)], wire [octets per pump], overflow count, sanitizer, rc)"""
-    r = h.run([], timeout=60, stdin="\n".join(script) + "\n")
+def run_script(h, script, unregistered=()):
+    """-> dict(deliveries [(dlci, payload)], wire [octets per pump], overflow count, sanitizer, rc); `unregistered`: DLCIs left without a handler"""
+    r = h.run([str(x) for x in unregistered], timeout=60, stdin="\n".join(script) + "\n")
     if r.get("rc") is None:
         return {"error": "harness build failed", "detail": r}
     out = {"deliveries": [], "wire": [], "overflows": 0, "sanitizer": r.get("sanitizer"), "rc": r["rc"], "states": []}
@@ -554,21 +557,35 @@ def scenarios(seed, rx, clause, func=""):
 
 
 def replay_rx_step(h, w, rx):
-    """A counter-model of the receive step contract is a receiver state (state, octets stored, dlci) and an octet.  It is executed on the real
-    code by driving the receiver into that state through sercomm_drv_rx_char() itself (the octet stream that leads there), feeding the octet,
-    and - when the stream is one a transmitter can produce - completing the frame and sending two more.  Judged at statement level only:
-    deliveries == spec.hdlc_wire.ideal_receive(stream) for well-formed streams of frames shorter than the buffer, the rules for over-long
-    frames otherwise, memory safety always.  -> replay result, or None when the state cannot be reached that way (RI violated)."""
-    st, ch, k, d = w.get("state"), w.get("ch"), w.get("stored", 0) or 0, w.get("dlci", 5)
-    if not all(isinstance(x, int) for x in (st, ch, k)) or not (0 <= ch <= 255) or not (0 <= st <= 6) or not (0 <= k <= rx):
+    """A counter-model of the receive step contract is a receiver state (state, octets stored, address and control octet seen, handler or not for
+    that address) and an octet.  It is executed on the real code EXACTLY: the receiver is driven into that state through sercomm_drv_rx_char()
+    itself (7E <dlci> <ctrl> <stored octets>, escaped where needed; the DLCI is left without a handler when the model says so - DLCIs >=
+    _SC_DLCI_MAX never have one), then the octet is fed.  When the stream is one a transmitter can produce the frame is completed, and in
+    every case FOUR more good frames follow.  Judged at statement level: deliveries == spec.hdlc_wire.ideal_receive(stream) restricted to the
+    DLCIs that have a handler (a frame nobody listens to costs nothing), the over-long rules, and after anything the statement does not
+    speak about (malformed stream) at most one of the following frames may be lost; memory safety always.
+    -> replay result, or None when the state cannot be reached through the interface (representation invariant violated by the model)."""
+    st, ch, k = w.get("state"), w.get("ch"), w.get("stored", 0) or 0
+    d, ctl, hnd = w.get("dlci", 5), w.get("ctrl", W.CTRL_UI), w.get("handler", 1)
+    if not all(isinstance(x, int) for x in (st, ch, k, d, ctl)) or not (0 <= ch <= 255) or not (0 <= st <= 6) or not (0 <= k <= rx) or not (0 <= d <= 255) or not (0 <= ctl <= 255):
         return None
-    d = d if isinstance(d, int) and 0 <= d < 128 else 5
-    esc = lambda b: [W.ESCAPE, b ^ 0x20] if W.needs_escape(b) else [b]
     if st in (0, 1, 5, 2, 6) and k != 0:
         return None
+    esc = lambda b: [W.ESCAPE, b ^ 0x20] if W.needs_escape(b) else [b]
+    # in the states before the address / control octet is complete the model's dlci / ctrl values are stale (they will be overwritten):
+    # the frame under construction gets a DLCI with a handler unless the address is already in
+    addr_in = st in (2, 6, 3, 4)
+    d_use = d if addr_in else 5
+    c_use = ctl if st in (3, 4) else W.CTRL_UI
+    no_handler = (d_use >= NDLCI or d_use == 128 or (addr_in and hnd == 0))
+    unregistered = [d_use] if (d_use < NDLCI and addr_in and hnd == 0) else []
+    if addr_in and d_use == 128:
+        return None                     # the echo DLCI re-queues the message: outside the delivery statement
+    if addr_in and d_use < NDLCI and hnd != 0 and False:
+        pass
     body = [0x41 + (i % 23) for i in range(k)]
-    prefix = {0: [], 1: [W.FLAG], 5: [W.FLAG, W.ESCAPE], 2: [W.FLAG] + esc(d), 6: [W.FLAG] + esc(d) + [W.ESCAPE],
-              3: [W.FLAG] + esc(d) + [W.CTRL_UI] + body, 4: [W.FLAG] + esc(d) + [W.CTRL_UI] + body + [W.ESCAPE]}[st]
+    prefix = {0: [], 1: [W.FLAG], 5: [W.FLAG, W.ESCAPE], 2: [W.FLAG] + esc(d_use), 6: [W.FLAG] + esc(d_use) + [W.ESCAPE],
+              3: [W.FLAG] + esc(d_use) + esc(c_use) + body, 4: [W.FLAG] + esc(d_use) + esc(c_use) + body + [W.ESCAPE]}[st]
     inv = (0x5E, 0x5D, 0x20)
     wellformed = {0: True, 1: ch not in (W.FLAG, 0), 5: ch in inv, 2: ch not in (W.FLAG, 0), 6: ch in inv, 3: ch != 0, 4: ch in inv}[st]
     stream = prefix + [ch]
@@ -579,22 +596,20 @@ def replay_rx_step(h, w, rx):
         pending_escape = (ch == W.ESCAPE and st in (1, 2, 3))
         if pending_escape:
             tail.append(0x5E)
-        seen = {0: 0, 1: 1, 5: 1, 2: 2 if not pending_escape else 2, 6: 2, 3: 3, 4: 3}[st]     # header octets conveyed after `ch` (1: address, 2: control)
-        if st == 1 and ch == W.ESCAPE:
-            seen = 1
-        if st == 2 and ch == W.ESCAPE:
-            seen = 2
         if st == 0:
-            tail += esc(d) + [W.CTRL_UI]
-        elif seen == 1:
+            tail += esc(5) + [W.CTRL_UI]
+        elif st in (1, 5):
             tail += [W.CTRL_UI]
         tail += [0x51, 0x52, W.FLAG]
         stream += tail
-    p1, p2 = (6, [0x70, 0x72, 0x6F]), (7, [0x62, 0x65, 0x7E, 0x00])
-    stream2 = stream + W.frame(*p1) + W.frame(*p2)
-    obs = run_script(h, ["feed " + hexs(stream2), "state"])
-    info = {"receiver_driven_to": {"state": st, "stored": k, "dlci": d}, "octet": ch, "stream_len": len(stream2), "stream_head": hexs(stream2[:24]), "stream_tail": hexs(stream2[-24:]),
-            "well_formed_stream": wellformed}
+    probes = [(6, [0x70, 0x72, 0x6F]), (7, [0x62, 0x65, 0x7E, 0x00]), (9, [0x33]), (10, [0x7D, 0x11, 0x13, 0x00, 0x7E])]
+    stream2 = list(stream)
+    for pr in probes:
+        stream2 += W.frame(*pr)
+    obs = run_script(h, ["feed " + hexs(stream2), "state"], unregistered)
+    info = {"receiver_driven_to": {"state": st, "stored": k, "dlci": d_use, "ctrl": c_use, "handler_for_dlci": not no_handler}, "octet": ch, "stream_len": len(stream2),
+            "stream_head": hexs(stream2[:24]), "stream_tail": hexs(stream2[-24:]), "well_formed_stream": wellformed, "state_afterwards": (obs.get("states") or [None])[-1],
+            "counter_model_executed_exactly": True}
     bad = []
     if obs.get("error"):
         return {"confirmed": False, "error": "harness build failed"}
@@ -605,25 +620,33 @@ def replay_rx_step(h, w, rx):
     if not obs.get("completed"):
         bad.append("harness did not complete (rc %s)" % obs.get("rc"))
     got = obs.get("deliveries", [])
-    if wellformed and not bad:
-        exp = W.ideal_receive(stream2)
-        echo = any(x[0] == 128 for x in exp)                     # DLCI 128 is the echo handler (re-queues the message): not judged
-        exp = [x for x in exp if x[0] < 128]                     # the harness registers its handler for DLCI 0..127; a frame for a DLCI without
-        got = [x for x in got if x[0] < 128]                     # a handler is dropped (statement: delivered to the handler REGISTERED for its DLCI)
-        long_ = [x for x in exp if len(x[1]) >= rx]
-        if echo:
-            pass
-        elif not long_:
-            if got != exp:
-                bad.append("deliveries differ from the ideal receiver: expected %s, observed %s" % ([(a, hexs(b[:8]), len(b)) for a, b in exp[:4]], [(a, hexs(b[:8]), len(b)) for a, b in got[:4]]))
+    listened = lambda x: x[0] < NDLCI and x[0] != 128 and x[0] not in unregistered
+    if not bad:
+        if wellformed:
+            exp = [x for x in W.ideal_receive(stream2) if listened(x)]        # delivered to the handler REGISTERED for its DLCI
+            if any(x[0] == 128 for x in W.ideal_receive(stream2)):
+                exp = None
+            long_ = [x for x in (exp or []) if len(x[1]) >= rx]
+            if exp is None:
+                pass
+            elif not long_:
+                if got != exp:
+                    bad.append("deliveries differ from the ideal receiver: expected %s, observed %s" % ([(a, hexs(b[:8]), len(b)) for a, b in exp[:6]], [(a, hexs(b[:8]), len(b)) for a, b in got[:6]]))
+            else:
+                if any(len(x[1]) > rx for x in got):
+                    bad.append("over-long frame delivered")
+                miss = [p for p in probes[1:] if p not in got]
+                if miss:
+                    bad.append("%d of the frames after the one following the over-long frame not delivered" % len(miss))
         else:
-            if any(len(x[1]) > rx for x in got):
-                bad.append("over-long frame delivered")
-            if p2 not in got:
-                bad.append("second frame after the over-long one not delivered")
-    return {"confirmed": bool(bad), "found_by": "model (receiver driven into the counter-model's state through its own input)", "observed": bad or "behaves as the statement prescribes",
-            "deliveries_observed": [(a, hexs(b[:12]), len(b)) for a, b in got[:5]], "executed": info,
-            "expected": "deliveries == ideal receiver of spec/hdlc_wire.py (well-formed stream), over-long rules, no sanitizer report / panic"}
+            # a stream no transmitter produces: the statement is silent about the frame it hits, but reception must come back
+            miss = [p for p in probes[1:] if p not in got]
+            if miss:
+                bad.append("after the malformed input %d of the last three good frames are not delivered (first missing: dlci %d)" % (len(miss), miss[0][0]))
+    return {"confirmed": bool(bad), "found_by": "model (receiver driven into exactly the counter-model's state through its own input)", "observed": bad or "behaves as the statement prescribes",
+            "precondition_met_by_model_input": True,
+            "deliveries_observed": [(a, hexs(b[:12]), len(b)) for a, b in got[:6]], "executed": info,
+            "expected": "deliveries == ideal receiver of spec/hdlc_wire.py for the DLCIs with a handler (well-formed stream), over-long rules, reception back in sync, no sanitizer report / panic"}
 
 
 def replay_c(payload):
